@@ -110,8 +110,11 @@ def detect(sid, checks):
             rc, out = sh("VERIF_SNAPSHOT=1 VERIF_REPO=%s ./run.sh %s quick" % (wt, c), cwd="/verif", timeout=3600)
             viol = [l for l in out.splitlines() if l.startswith("VIOLATION")]
             diags = [l.strip() for l in out.splitlines() if l.strip().startswith("diagnostic:")]
+            capped = "exhaustive=false" in out
             meta["detected_by"][c] = {"exit": rc, "violations_printed": len(viol), "first_diagnostics": diags[:3], "wall_s": round(time.time() - t0)}
-            print(sid, c, "exit", rc, len(viol), "violations", diags[:2])
+            if capped:
+                meta["detected_by"][c]["capped"] = True  # an internal deadline cut the run short (machine overloaded): not a verdict
+            print(sid, c, "exit", rc, len(viol), "violations", "CAPPED" if capped else "", diags[:2])
     finally:
         sh("git -C /repo worktree remove --force %s" % wt)
     json.dump(meta, open(dst + "/meta.json", "w"), indent=1)
